@@ -208,7 +208,10 @@ def write_tree(root, files, main, phys=None):
 
 
 GROUPS = ['C(C)(H)3', 'C(C)2(H)2', 'O(C)(H)']
-ALT_SPELL = {'C(C)(H)3': 'C(H)3(C)', 'C(C)2(H)2': 'C(H)2(C)2', 'O(C)(H)': 'O(H)(C)'}
+ALT_SPELLS = {'C(C)(H)3': ['C(H)3(C)', 'C(H)(C)(H)2', 'C(H)2(C)(H)', 'C(H)(H)(H)(C)', 'C(C)1(H)3', 'C(H)(H)2(C)', 'C(C)(H)(H)2'],
+              'C(C)2(H)2': ['C(H)2(C)2', 'C(H)(C)2(H)', 'C(C)(H)2(C)', 'C(H)(C)(H)(C)', 'C(C)(C)(H)2', 'C(H)(C)(C)(H)1'],
+              'O(C)(H)': ['O(H)(C)', 'O(H)1(C)', 'O(C)1(H)1']}
+ALT_SPELL = {k: v[0] for k, v in ALT_SPELLS.items()}
 
 
 def gen_tree(ctx, idx):
@@ -249,7 +252,11 @@ def gen_tree(ctx, idx):
         g = rng.choice(sorted(trs))
         if not any(x[0] == g for x in per[n]):
             per[n].append((g, piece(rng, trs[g])))
-        per[n].append((ALT_SPELL[g], piece(rng, trs[g])))
+        per[n].append((rng.choice(ALT_SPELLS[g]), piece(rng, trs[g])))
+    elif rng.random() < 0.4:
+        # the same group under ANOTHER spelling in some of the files: still one group
+        for n in names:
+            per[n] = [(rng.choice(ALT_SPELLS[g]) if rng.random() < 0.5 else g, p_) for g, p_ in per[n]]
     shapes = []
     others = names[1:]
     perms = list(itertools.permutations(others))
@@ -307,7 +314,7 @@ def file_lit(files, name):
 
 
 def canon(g):
-    return {v: k for k, v in ALT_SPELL.items()}.get(g, g)
+    return {v: k for k, vs in ALT_SPELLS.items() for v in vs}.get(g, g)
 
 
 def run(ctx):
